@@ -14,6 +14,27 @@ NMAX = 20
 LD = np.longdouble
 TOL = 1e-9
 
+# squared normalisation constants (n+1)·(2 if m≠0), asked from the model (`C13 normsq`) once per run
+NORMSQ = {}
+
+
+def load_normsq(ctx):
+    """The rational model values are multiplied by sqrt(normSq n m) to give the value the code returns; normSq is
+    the model's own definition (the one `normalisation_unit` / `zernikeR_eq_model` are about), not a Python copy."""
+    pairs = [(n, m) for n in range(NMAX + 1) for m in range(-n, n + 1, 2)]
+    out = ctx.model(['C13 normsq %d %d' % nm for nm in pairs])
+    for nm, line in zip(pairs, out):
+        if not line.startswith('ok '):
+            raise MachineryError('model answered %r to normsq %r' % (line[:60], nm))
+        NORMSQ[nm] = Fraction(line[3:])
+        ctx.traces_validated += 1
+    ctx.count('normsq-from-model', len(pairs))
+
+
+def norm_factor(n, m):
+    q = NORMSQ[(n, m)]
+    return np.sqrt(LD(q.numerator) / LD(q.denominator))
+
 
 # =============================================================================================
 # Part A: index maps
@@ -335,7 +356,11 @@ def build(case):
     raise MachineryError('unknown grid kind %r' % k)
 
 
-def pts_line(pts):
+def pts_line(pts, case=None):
+    if case is not None and case.get('kind') == 'polar-separated':
+        ang = case['ang']
+        return 'C13 pts sep %s %s %s' % (rat_list(case['R']), rat_list([Fraction(c, d) for c, s, d in ang]),
+                                         rat_list([Fraction(s, d) for c, s, d in ang]))
     if pts[0] == 'polar':
         return 'C13 pts polar %s %s %s' % (rat_list(pts[1]), rat_list([Fraction(c, d) for c, s, d in pts[2]]),
                                            rat_list([Fraction(s, d) for c, s, d in pts[2]]))
@@ -407,9 +432,27 @@ def reference(n, m, D, cut, pts, outside):
 
 # ---------------------------------------------------------------------------------------------
 
-def real_values(hz, grid, D, reqs, cache):
-    """one zernike() call per request, in order, against one cache (or none)"""
+def key_name(k):
+    """cache key of the code -> key name of the model's protocol"""
+    if isinstance(k, tuple) and len(k) == 3 and k[0] == 'rad':
+        return 'rad.%d.%d' % (k[1], k[2])
+    if isinstance(k, tuple) and len(k) == 3 and k[0] == 'rad_reduced':
+        return 'red.%d.%d' % (k[1], k[2])
+    if isinstance(k, tuple) and len(k) == 2 and k[0] == 'azim':
+        return 'azim.%d' % k[1]
+    return 'other:%r' % (k,)
+
+
+def is_array(v):
+    return isinstance(v, np.ndarray) and v.ndim > 0
+
+
+def real_values(hz, grid, D, reqs, cache, trace=None):
+    """one zernike() call per request, in order, against one cache (or none).  With `trace` (a list) the cache is
+    inspected after every call: slots added (name -> float or array copy, and the identity of the stored object),
+    slots whose stored object or bytes changed since they were first seen."""
     res = []
+    seen = {}          # name -> (id, bytes or float)
     with warnings.catch_warnings():
         warnings.simplefilter('ignore')
         for n, m, cut in reqs:
@@ -418,6 +461,22 @@ def real_values(hz, grid, D, reqs, cache):
                 res.append(np.array(z, dtype=float).copy())
             except Exception as e:      # noqa
                 res.append('raises-' + type(e).__name__)
+            if trace is not None and cache is not None:
+                added, changed, removed = {}, {}, []
+                for k, v in cache.items():
+                    name = key_name(k)
+                    sig = (id(v), np.asarray(v, dtype=float).tobytes() if is_array(v) else float(v))
+                    val = np.array(v, dtype=float).copy() if is_array(v) else float(v)
+                    if name not in seen:
+                        added[name] = (val, id(v))
+                    elif seen[name] != sig:
+                        changed[name] = (val, id(v))
+                    seen[name] = sig
+                names = set(key_name(k) for k in cache)
+                for name in list(seen):
+                    if name not in names:
+                        removed.append(name); del seen[name]
+                trace.append({'added': added, 'changed': changed, 'removed': removed})
     return res
 
 
@@ -476,11 +535,11 @@ def shrink(hz, case, key, qi):
     return case, None
 
 
-def observe(hz, case):
+def observe(hz, case, trace=None):
     grid, pts = build(case)
     D = case['D']
     cache = {} if case['cache'] else None
-    real = real_values(hz, grid, D, case['reqs'], cache)
+    real = real_values(hz, grid, D, case['reqs'], cache, trace)
     fresh = real if not case['cache'] else [real_values(hz, grid, D, [q], None)[0] for q in case['reqs']]
     outside, amb = cut_info(pts, D)
     both = [reference(n, m, D, cut, pts, outside) for n, m, cut in case['reqs']]
@@ -488,16 +547,171 @@ def observe(hz, case):
     return grid, pts, real, fresh, outside, amb, refs
 
 
+
+# ---------------------------------------------------------------------------------------------
+# the cache, state by state (array-level model `C13 amemo`, per-point model `C13 memo`)
+
+def req_str(reqs):
+    return ','.join('%d:%d:%d' % (n, m, 1 if cut else 0) for n, m, cut in reqs)
+
+
+def cache_axes(case, pts):
+    """(rho, theta) in 80-bit on the axis the radial / azimuthal cache arrays live on"""
+    D = LD(case['D'])
+    if case['kind'] == 'polar-separated':
+        rho = 2 * np.array(case['R'], dtype=LD) / D
+        th = np.array([np.arctan2(LD(s) / LD(d), LD(c) / LD(d)) for c, s, d in case['ang']], dtype=LD)
+    elif pts[0] == 'polar':
+        rho = 2 * np.array(pts[1], dtype=LD) / D
+        th = np.array([np.arctan2(LD(s) / LD(d), LD(c) / LD(d)) for c, s, d in pts[2]], dtype=LD)
+    else:
+        x = np.array(pts[1], dtype=LD); y = np.array(pts[2], dtype=LD)
+        rho = 2 * np.hypot(x, y) / D; th = np.arctan2(y, x)
+    return rho, th
+
+
+def entry_reference(name, rho, th):
+    """what a valid cache holds under a key, from the definition (independent of the recursion and of the model)"""
+    parts = name.split('.')
+    if parts[0] == 'rad':
+        n, m = int(parts[1]), int(parts[2])
+        return radial_reference(n, m, rho), [n, m, False]
+    if parts[0] == 'red':
+        n, m = int(parts[1]), int(parts[2])
+        t = rho * rho
+        S = np.zeros(len(rho), dtype=LD)
+        for e, c in def_coeffs(n, m):
+            S = S + LD(c) * t ** ((e - m) // 2)
+        return S, [n, m, False]
+    if parts[0] == 'azim':
+        m = int(parts[1])
+        A = np.sqrt(LD(2)) * (np.cos(m * th) if m > 0 else np.sin(-m * th))
+        return A, [abs(m), m, False]
+    return None, None
+
+
+def cache_oracle(hz, case, pts, trace):
+    """Property oracle on the cache itself: after the history every slot must hold what the definition gives on its
+    axis, and no slot may have changed after it was stored.  Returns [(name, why, probe request)]."""
+    rho, th = cache_axes(case, pts)
+    final, bad = {}, []
+    for st in trace:
+        for name, (val, _) in st['added'].items():
+            final[name] = val
+        for name, (val, _) in st['changed'].items():
+            final[name] = val
+            ref, probe = entry_reference(name, rho, th)
+            bad.append((name, 'cache slot %s was modified after it was stored' % name, probe))
+        for name in st['removed']:
+            final.pop(name, None)
+    for name, val in final.items():
+        ref, probe = entry_reference(name, rho, th)
+        if ref is None:
+            continue
+        refd = ref.astype(float)
+        v = np.broadcast_to(np.asarray(val, dtype=float), refd.shape) if np.ndim(val) == 0 or np.shape(val) == refd.shape else None
+        if v is None:
+            bad.append((name, 'cache slot %s has shape %r, its axis has %d points' % (name, np.shape(val), len(refd)), probe)); continue
+        scale = max(1.0, float(np.max(np.abs(refd))) if len(refd) else 1.0)
+        err = np.abs(v - refd)
+        if np.isnan(v).any() or (err > TOL * scale).any():
+            j = int(np.nanargmax(np.where(np.isnan(v), np.inf, err)))
+            bad.append((name, 'cache slot %s holds %.12g at axis index %d, the definition gives %.12g' % (name, v[j], j, refd[j]), probe))
+    return bad
+
+
+def parse_amemo(line, nreq):
+    if not line.startswith('ok '):
+        raise MachineryError('model answered %r to an amemo request' % line[:80])
+    steps = line[3:].split('|')
+    if len(steps) != nreq:
+        raise MachineryError('amemo: %d steps for %d requests' % (len(steps), nreq))
+    out = []
+    for stp in steps:
+        f = stp.split(';')
+        res = parse_rat_list(f[0])
+        added, changed = {}, {}
+        for e in f[1:]:
+            name, val = e[1:].split('=', 1)
+            if val.startswith('s:'):
+                item = ('s', Fraction(val[2:]), None)
+            else:
+                ref, arr = val[1:].split(':', 1)
+                item = ('a', parse_rat_list(arr), int(ref))
+            (added if e[0] == '+' else changed)[name] = item
+        out.append((res, added, changed))
+    return out
+
+
+def to_float(q):
+    return float(LD(q.numerator) / LD(q.denominator))
+
+
+def compare_amemo(ctx, case, trace, real, line, values, amb, mags):
+    """state-by-state correspondence of the real cache with the array-level model"""
+    steps = parse_amemo(line, len(case['reqs']))
+    id2ref, ref2id = {}, {}
+    info = {k: v for k, v in case.items() if k != 'reqs'}
+    for qi, ((res, madd, mchg), st, (n, m, cut), z) in enumerate(zip(steps, trace, case['reqs'], real)):
+        ctx.traces_validated += 1
+        here = {'case': info, 'reqs': case['reqs'][:qi + 1], 'step': qi}
+        if set(madd) != set(st['added']) or set(mchg) != set(st['changed']) or st['removed']:
+            ctx.disagree('C13 amemo keys', dict(here, impl={'added': sorted(st['added']), 'changed': sorted(st['changed']), 'removed': st['removed']},
+                                                model={'added': sorted(madd), 'changed': sorted(mchg)}))
+            return
+        for name, (kind, mval, ref) in madd.items():
+            val, ident = st['added'][name]
+            ctx.count('amemo-slot:' + name.split('.')[0] + (':float' if kind == 's' else ':array'))
+            if (kind == 's') != (np.ndim(val) == 0):
+                ctx.disagree('C13 amemo slot-kind', dict(here, key=name, impl='float' if np.ndim(val) == 0 else 'ndarray', model='float' if kind == 's' else 'ndarray'))
+                return
+            if kind == 'a':
+                if id2ref.setdefault(ident, ref) != ref or ref2id.setdefault(ref, ident) != ident:
+                    ctx.disagree('C13 amemo aliasing', dict(here, key=name, detail='the stored ndarray is shared with another slot differently from the model'))
+                    return
+            if not values:
+                continue
+            mv = np.array([to_float(mval)]) if kind == 's' else np.array([to_float(v) for v in mval])
+            rv = np.atleast_1d(np.asarray(val, dtype=float))
+            if name.startswith('azim'):
+                mv = mv * math.sqrt(2.0)
+            if rv.shape != mv.shape or np.isnan(rv).any() or (np.abs(rv - mv) > TOL * max(1.0, float(np.max(np.abs(mv))) if len(mv) else 1.0)).any():
+                ctx.disagree('C13 amemo slot-value', dict(here, key=name, impl=[repr(x) for x in rv[:6]], model=[repr(x) for x in mv[:6]]))
+                return
+        if values and not isinstance(z, str):
+            nf = norm_factor(n, m)
+            mv = np.array([float(nf * (LD(v.numerator) / LD(v.denominator))) for v in res])
+            r = compare_vec(z, mv, mags[qi], amb, cut, len(mv))
+            if r:
+                ctx.disagree('C13 amemo result', dict(here, detail=r[1]))
+                return
+
 def check_values(ctx, hz):
     ncases = ctx.scale(140, 6000)
     cases = directed_cases()
     for k in range(ncases):
         cases.append(gen_case(ctx.rng, big=(ctx.tier == 'thorough' and k % 4 == 0)))
-    lines, slots = [], []
+    lines, slots, amemo_slots, memo_slots = [], [], [], []
     for case in cases:
-        grid, pts, real, fresh, outside, amb, refs = observe(hz, case)
+        trace = [] if case['cache'] else None
+        grid, pts, real, fresh, outside, amb, refs = observe(hz, case, trace)
         npts = len(pts[1])
         bad = judge(case, real, fresh, refs, amb, npts)
+        if trace is not None:
+            # the cache itself: every slot valid and never modified; a spoiled slot is turned into a failing request
+            # history by asking for that mode once more, without cut-off
+            for name, why, probe in cache_oracle(hz, case, pts, trace):
+                ctx.count('cache-slot-spoiled')
+                pc = dict(case, reqs=case['reqs'] + [probe]) if probe else case
+                g2, p2, real2, fresh2, out2, amb2, refs2 = observe(hz, pc)
+                found = [(k, w, qi) for k, w, qi in judge(pc, real2, fresh2, refs2, amb2, len(p2[1])) if qi == len(pc['reqs']) - 1 or not probe]
+                if found:
+                    k, w, qi = found[0]
+                    small, what2 = shrink(hz, pc, k, qi)
+                    ctx.violation(k, (what2 or w) + ' [%s]' % why, small)
+                else:
+                    ctx.disagree('C13 cache-slot', {'case': {k: v for k, v in case.items()}, 'slot': name, 'detail': why})
+                break
         seen = set()
         for key, what, qi in bad:
             if key not in seen:
@@ -510,8 +724,26 @@ def check_values(ctx, hz):
         rr = np.array(pts[1]) if pts[0] == 'polar' else np.hypot(np.array(pts[1]), np.array(pts[2]))
         has0 = bool((rr == 0).any()); hasrim = bool((2 * rr == case['D']).any())
         ctx.count('cases-with-centre-point', int(has0)); ctx.count('cases-with-rim-point', int(hasrim))
-        lines.append(pts_line(pts))
+        lines.append(pts_line(pts, case))
         base_slot = len(slots)
+        if trace is not None and len(trace) == len(case['reqs']):
+            mags = [mag for _, mag in refs]
+            ctx.count('amemo-histories:' + case['kind']); ctx.count('amemo-requests', len(case['reqs']))
+            if pts[0] == 'polar':
+                amemo_slots.append((len(lines), case, trace, real, True, amb, mags))
+                lines.append('C13 amemo new %s %s' % (rat(case['D']), req_str(case['reqs'])))
+                j = int(ctx.rng.integers(0, npts))
+                c, s_, d = pts[2][j]
+                memo_slots.append((len(lines), case, j, real, amb, mags))
+                lines.append('C13 memo %s %s %s %s new %s' % (rat(case['D']), rat(pts[1][j]), rat(Fraction(c, d)), rat(Fraction(s_, d)), req_str(case['reqs'])))
+                ctx.count('memo-histories')
+            else:
+                # Cartesian grids: the cached arrays are irrational (hypot, arctan2); slot names, float/array kinds and
+                # sharing are compared on a one-point stand-in, values are left to the oracle above
+                lines.append('C13 pts polar [1/2] [1/1] [0/1]')
+                amemo_slots.append((len(lines), case, trace, real, False, amb, mags))
+                lines.append('C13 amemo new %s %s' % (rat(case['D']), req_str(case['reqs'])))
+                lines.append(pts_line(pts, case))
         for (n, m, cut), z in zip(case['reqs'], real):
             ctx.count('n-|m|>=4' if n - abs(m) >= 4 else 'n-|m|<4')
             ctx.count('order:%d' % n)
@@ -525,12 +757,27 @@ def check_values(ctx, hz):
         raise MachineryError('generator produced %d ambiguous rim points of %d' % (ctx.boundary_skipped, total_pts))
     # ---- correspondence: the model's exact rational factor times sqrt(normSq) vs the code
     out = ctx.model(lines)
+    for idx, case, trace, real, values, amb, mags in amemo_slots:
+        compare_amemo(ctx, case, trace, real, out[idx], values, amb, mags)
+    for idx, case, j, real, amb, mags in memo_slots:
+        if not out[idx].startswith('ok '):
+            raise MachineryError('model answered %r to %r' % (out[idx][:60], lines[idx][:80]))
+        q = parse_rat_list(out[idx][3:])
+        for qi, ((n, m, cut), z, v) in enumerate(zip(case['reqs'], real, q)):
+            ctx.traces_validated += 1
+            if isinstance(z, str) or (amb[j] and cut):
+                continue
+            mvj = float(norm_factor(n, m) * (LD(v.numerator) / LD(v.denominator)))
+            if np.isnan(z[j]) or abs(z[j] - mvj) > TOL * max(1.0, mags[qi]):
+                ctx.disagree('C13 memo', {'case': {k: v_ for k, v_ in case.items() if k != 'reqs'}, 'reqs': case['reqs'][:qi + 1], 'point': j,
+                                          'impl': repr(z[j]), 'model': repr(mvj)})
+                break
     for idx, case, n, m, cut, z, amb, mag in slots:
         if not out[idx].startswith('ok '):
             raise MachineryError('model answered %r to %r' % (out[idx][:60], lines[idx]))
         q = parse_rat_list(out[idx][3:])
-        norm2 = (n + 1) * (1 if m == 0 else 2)
-        mv = np.array([float(np.sqrt(LD(norm2)) * (LD(v.numerator) / LD(v.denominator))) for v in q])
+        nf = norm_factor(n, m)
+        mv = np.array([float(nf * (LD(v.numerator) / LD(v.denominator))) for v in q])
         ctx.traces_validated += 1
         if isinstance(z, str) or z.shape != mv.shape:
             ctx.disagree('C13 mode', {'case': case, 'req': [n, m, cut], 'impl': z if isinstance(z, str) else 'length %d' % z.size, 'model': 'length %d' % len(mv)},
@@ -974,8 +1221,8 @@ def check_spellings(ctx, hz):
         if not out[idx].startswith('ok '):
             raise MachineryError('model answered %r to %r' % (out[idx][:60], lines[idx]))
         q = parse_rat_list(out[idx][3:])
-        norm2 = (n + 1) * (1 if m == 0 else 2)
-        mv = np.array([float(np.sqrt(LD(norm2)) * (LD(v.numerator) / LD(v.denominator))) for v in q])
+        nf = norm_factor(n, m)
+        mv = np.array([float(nf * (LD(v.numerator) / LD(v.denominator))) for v in q])
         ctx.traces_validated += 1
         r = compare_vec(z, mv, mag, amb, cut, len(mv))
         if r:
@@ -1004,6 +1251,7 @@ def run(ctx):
                         'float sqrt in the index maps is tied only on the exhaustively compared range',
                         'Cartesian points within 1e-12 (relative, squared) of the rim are not compared (counted as boundary_skipped)']
     t = time.time()
+    load_normsq(ctx)
     check_index_maps(ctx, hz)
     ctx.extra['time_index_s'] = round(time.time() - t, 1); t = time.time()
     check_values(ctx, hz)
